@@ -243,6 +243,13 @@ def check_history(ctx, history):
                 raise Violation("c02:copy:density", "%s: density %r expected %r" % (where, dst.density, step.op[3]), case)
             if dst is src:
                 raise Violation("c02:alias:copy", "%s: formula(f) returned f itself" % where, case)
+        if step.kind == "clone":
+            src, dst = vars_[step.operands[0]].f, vars_[target].f
+            if dst is src:
+                raise Violation("c02:alias:clone", "%s: the %s of a formula is the formula itself" % (where, step.op[2]), case)
+            if dst.name != src.name or dst.density != src.density or dst != src:
+                raise Violation("c02:clone:differs", "%s: the %s of %r (name %r, density %r) is %r (name %r, density %r)"
+                                % (where, step.op[2], src.structure, src.name, src.density, dst.structure, dst.name, dst.density), case)
         if step.new is not None and step.kind in ("add", "mul"):
             for i in step.operands:
                 if vars_[target].f is vars_[i].f:
